@@ -18,6 +18,8 @@ pub struct G {
     pub hidden: Vec<String>,
     /// hidden values observed for run-to-run variation
     pub observe: Vec<String>,
+    /// computed values known to be strictly positive (Sqrt(eps + mean of squares))
+    pub positive: Vec<String>,
 }
 
 pub fn bshape(a: &[usize], b: &[usize]) -> Option<Vec<usize>> {
@@ -36,7 +38,7 @@ const LIMIT: f64 = 1048576.0;
 
 impl G {
     pub fn new(seed: u64) -> G {
-        G { rng: SplitMix64(seed), spec: Spec::default(), vals: vec![], n: 0, exact: true, tags: vec![], force_decl: None, hidden: vec![], observe: vec![] }
+        G { rng: SplitMix64(seed), spec: Spec::default(), vals: vec![], n: 0, exact: true, tags: vec![], force_decl: None, hidden: vec![], observe: vec![], positive: vec![] }
     }
     fn fresh(&mut self, p: &str) -> String { self.n += 1; format!("{}{}", p, self.n) }
     fn track(&mut self, bound: f64, fb: i32) { if !(bound * 2f64.powi(fb) < 4194304.0) { self.exact = false; } }
@@ -115,6 +117,11 @@ impl G {
             "Add" | "Sub" => (va.bound + vb.bound, va.fb.max(vb.fb)),
             "Mul" => (va.bound * vb.bound, va.fb + vb.fb),
             "Div" => {
+                // Never divide by a COMPUTED tensor that may contain zeros: a fusion may legitimately
+                // change the sign of a computed zero (alpha * (a @ b) vs (alpha * a) @ b), and c / +-0
+                // = +-inf would turn that into an observable difference.  Denominators are constants,
+                // graph inputs (identical in every configuration) or values known to be positive.
+                if !(vb.konst || vb.is_input || self.positive.contains(&vb.name)) { return None; }
                 // exact only when dividing by a constant power of two
                 let p2 = vb.konst && self.spec.consts.iter().find(|c| c.name == vb.name).map(|c| c.vals.iter().all(|v| *v != 0.0 && v.abs().log2().fract() == 0.0)).unwrap_or(false);
                 if !p2 { self.inexact(); }
@@ -262,6 +269,8 @@ impl G {
         let ve = if self.rng.chance(50) { self.binary("Add", None, eps, var) } else { self.binary("Add", None, var, eps) };
         let Some(ve) = ve else { return x };
         let sd = self.unary("Sqrt", ve, vec![]);
+        let sdn = self.vals[sd].name.clone();
+        self.positive.push(sdn);
         let Some(nrm) = self.binary("Div", None, center, sd) else { return x };
         let d = *vx.shape.last().unwrap();
         let sshape = if self.rng.chance(80) { vec![d] } else { vec![1, d] };
